@@ -135,8 +135,13 @@ def main(tier, seed, replay=None):
         for k, v in sh["counts"].items():
             tot[k] = tot.get(k, 0) + v
     md = [n for sh in shards for n in sh["notable"] if n["clang"] == "fail"]
-    for n in md[:20]:
-        print("model_disagreement: %s/%s `%s` spec says %s; clang: %s" % (n["platform"], n["lang"], n["expr"], n["expected"], n.get("clang_msg", "")))
+    md_samples = {}
+    for n in md:
+        md_samples.setdefault("%s/%s/%s" % (n["platform"], n["lang"], n["rule"]), []).append(
+            {"expr": n["expr"], "spec": n["expected"], "clang": n.get("clang_msg", "")})
+    for k in sorted(md_samples):
+        print("model_disagreement x%d in %s, e.g. `%s` spec says %s; clang: %s"
+              % (len(md_samples[k]), k, md_samples[k][0]["expr"], md_samples[k][0]["spec"], md_samples[k][0]["clang"][:160]))
     judged = tot.get("ok", 0) + tot.get("violation", 0) + sum(1 for n in md if n["verdict"] == "model_disagreement")
     cov = {
         "evaluations": tot.get("cases", 0),
@@ -151,7 +156,7 @@ def main(tier, seed, replay=None):
         "untyped": tot.get("untyped", 0), "root_token_simplified_away": tot.get("unmapped", 0), "open_not_judged": tot.get("open", 0),
         "agree": tot.get("ok", 0), "wrong_type_cases": tot.get("violation", 0), "violation_groups": len(violations),
         "known_finding_groups": known,
-        "model_disagreements": len(md),
+        "model_disagreements": len(md), "model_disagreement_samples": {k: v[:3] for k, v in md_samples.items()},
         "per_shard": {"%s/%s" % (sh["plat"], sh["lang"]): sh["counts"] for sh in shards},
     }
     vlib.write_evidence(PID, tier, seed, "exploration", cov, time.time() - t0, violations=new,
